@@ -132,8 +132,24 @@ func genConsume(prop string, seed uint64) *Plan {
 	}
 	k["nparts"] = nparts
 	ntopics := g.rng(1, 2)
+	// directed (C14): several topics in ONE buffered fetch (one broker), one
+	// of them paused while its records sit in that fetch, and polls that take
+	// one record at a time - the limit of a poll then runs out exactly at
+	// every topic boundary of the fetch
+	c14dir := prop == "C14" && g.pct(35)
+	if c14dir {
+		nb = 1
+		k["nbroker"] = nb
+		ntopics = g.rng(2, 3)
+		nparts = g.rng(1, 2)
+		k["nparts"] = nparts
+	}
 	k["ntopics"] = ntopics
 	g.consumerKnobs()
+	if c14dir {
+		k["fetch_max_bytes"] = 50 << 20
+		k["fetch_max_part_bytes"] = 1 << 20
+	}
 	var topics []string
 	for i := int64(0); i < ntopics; i++ {
 		topics = append(topics, fmt.Sprintf("t%d", i))
@@ -186,6 +202,20 @@ func genConsume(prop string, seed uint64) *Plan {
 		faultsN = int(g.rng(0, 5))
 	}
 	for _, c := range consumers {
+		if c14dir {
+			pa := Actor{Name: "poll." + c, Client: c}
+			pa.Ops = append(pa.Ops, Op{Kind: "sleep", A: g.pick(400, 800, 1500)})
+			for i := 0; i < int(g.rng(5, 30)); i++ {
+				pa.Ops = append(pa.Ops, Op{Kind: "poll", A: g.pick(1, 1, 1, 2), D: g.pick(200, 1000)})
+			}
+			ctl := Actor{Name: "ctl." + c, Client: c}
+			for i := 0; i < int(g.rng(2, 6)); i++ {
+				t := topics[g.R.Intn(len(topics))]
+				ctl.Ops = append(ctl.Ops, Op{Kind: "sleep", A: g.pick(100, 300, 700)}, Op{Kind: "pause_t", S: t}, Op{Kind: "sleep", A: g.pick(500, 2000, 4000)}, Op{Kind: "resume_t", S: t})
+			}
+			g.P.Actors = append(g.P.Actors, pa, ctl)
+			continue
+		}
 		g.P.Actors = append(g.P.Actors, g.pollActor(c))
 		if g.pct(60) && prop != "C05" || g.pct(30) {
 			ctl := Actor{Name: "ctl." + c, Client: c}
